@@ -101,8 +101,8 @@ func allAtoms(dm Domain) []interface{} {
 }
 
 type Gen struct {
-	R  *rand.Rand
-	Dm Domain
+	R     *rand.Rand
+	Dm    Domain
 	atoms []interface{}
 }
 
